@@ -5,6 +5,7 @@ import Proofs.C18.Init
 import Proofs.C18.InitFail
 import Proofs.C18.Run
 import Proofs.C18.Live
+import Proofs.C18.Tie
 /-!
 # C18 — property theorems (statements; proofs live in `Proofs/C18/*.lean`)
 
@@ -25,6 +26,14 @@ graph the graph is still acyclic — for every graph, every module, every list o
 theorem add_dependency_rejects_cycles (g : Graph) (hg : Acyclic g) (fuel : Nat) (name : Mod) (ds : List Mod)
     (g' : Graph) (h : addDependency g fuel name ds = (.ok, g')) : Acyclic g' :=
   addDependency_acyclic g hg fuel name ds g' h
+
+/-- … and nothing else is: `AddDependency` succeeds EXACTLY when module and new dependencies are registered,
+none of them is the module itself and none already (transitively) depends on it — i.e. exactly when the
+new edges close no cycle. (Soundness alone would hold of a function that rejects everything.) -/
+theorem add_dependency_accepts_iff_no_cycle (g : Graph) (hg : Acyclic g) (name : Mod) (ds : List Mod) :
+    (addDependency g (g.n + 1) name ds).1 = .ok ↔
+      name < g.n ∧ ∀ d ∈ ds, d < g.n ∧ d ≠ name ∧ ¬ Reach g d name :=
+  addDependency_ok_iff g hg name ds
 
 /- HISTORY (defect D3, fixed by a0dd941 "modules.AddDependency accepts a module depending on itself"):
 before the fix the check loop had no `newDep == name` test (`C18.addCheckOld`), the theorem above was
@@ -250,111 +259,104 @@ example :
       (fun _ _ => [0, 1]) 0 [1, 7, 2] {} = ({ inited := [0, 1], log := [0, 1], svcs := [0] }, some (.unrecognised 7)) := by
   decide
 
-/-! ### run time: the wrappers -/
+/-! ### run time: the wrappers
 
-/-- A module's own service is started only after the wrappers of all its (transitive) dependencies
-have been Running — in every reachable state of the system of wrappers, for every schedule. -/
-theorem start_after_deps (mods : List Mod) (sd td : Mod → List Mod) (evs : List REv) :
-    let s := (Sys.init mods sd td).run evs
-    ∀ m, (s.st m).inner ≠ .new → ∀ d ∈ s.startDeps m, (s.st d).wasRunning = true := by
-  intro s m hm
-  exact (rinv_run _ (rinv_init mods sd td) evs).deps m (Or.inl hm)
+`wrun g svcs evs` = the state of the system `InitModuleServices` builds for graph `g` when `svcs` are the
+modules with a service (`wrapperSys`: wrapper `m` gets `DependenciesForModule(m)` and
+`inverseDependenciesForModule(m)`, filtered by "has a service"), after the events `evs` — any schedule of
+wrapper starts/stops, waits returning, and inner-service functions returning nil or an error. -/
 
-/-- A service that has been running is asked to stop (by its wrapper) only when the wrapper of every
-module depending on it is Terminated or Failed. -/
-theorem stop_after_dependants (mods : List Mod) (sd td : Mod → List Mod) (evs : List REv) :
-    let s := (Sys.init mods sd td).run evs
-    ∀ m, (s.st m).iStopReq = true → (s.st m).wasRunning = true → ∀ k ∈ s.stopDeps m, (s.st k).ph.terminal = true := by
-  intro s m h1 h2
-  have hi := rinv_run _ (rinv_init mods sd td) evs
-  rcases hi.req m h1 with h | h
-  · exact hi.stopped m h
-  · rw [h2] at h; cases h
-
-/-- If a dependency fails to start (its wrapper is Failed and was never Running), the service of a
-dependant is never started, and a dependant that was started can only end Failed. -/
-theorem dep_failure_propagates (mods : List Mod) (sd td : Mod → List Mod) (evs : List REv) :
-    let s := (Sys.init mods sd td).run evs
-    ∀ d, (s.st d).ph = .failed → (s.st d).wasRunning = false →
-      ∀ m, d ∈ s.startDeps m → (s.st m).inner = .new ∧ ((s.st m).started = true → (s.st m).ph ≠ .term ∧ (s.st m).ph ≠ .run) := by
-  intro s d _ hw m hd
-  have hi := rinv_run _ (rinv_init mods sd td) evs
-  refine ⟨?_, fun hs => ⟨?_, ?_⟩⟩
-  · apply Classical.byContradiction
-    intro hne
-    have := hi.deps m (Or.inl hne) d hd
-    rw [hw] at this; cases this
-  · intro ht
-    have := hi.deps m (Or.inr (Or.inr ⟨ht, hs⟩)) d hd
-    rw [hw] at this; cases this
-  · intro hr
-    have := hi.deps m (Or.inr (Or.inl (by rw [hr]; rfl))) d hd
-    rw [hw] at this; cases this
-
-/-- Liveness-style complement: once a dependency `d` has failed to start this is permanent, and as long
-as a started dependant `m` has not terminated it is still waiting for its dependencies, the step in which
-it looks at `d` is enabled, and that step makes it Failed. (That the goroutine gets to that step is
-fairness of the Go scheduler plus the other dependencies' latches closing: not modelled.) -/
-theorem dep_failure_propagates_progress (mods : List Mod) (sd td : Mod → List Mod) (evs more : List REv) :
-    let s := (Sys.init mods sd td).run evs
-    ∀ d m, d ∈ s.startDeps m → (s.st d).ph = .failed → (s.st d).wasRunning = false →
-      (((s.run more).st d).ph = .failed ∧ ((s.run more).st d).wasRunning = false) ∧
-      ((s.st m).started = true → (s.st m).ph.terminal = false →
-        (∃ ok, (s.st m).ph = .waitDeps ok) ∧ ((s.step (.awaitFail m d)).st m).ph = .failed) := by
-  intro s d m hd hf hw
-  exact ⟨failed_to_start_stable_run s more d hf hw,
-    fun hs hnt => fail_step_enabled s (rinv_run _ (rinv_init mods sd td) evs) m d hd hf hw hs hnt⟩
-
-/-- **The system of wrappers can always finish** (liveness without fairness). From every reachable
-state, for every dependency graph (the "stops after" relation `td` is ranked: it is the inverse of the
-transitive dependencies of a DAG, see `stop_relation_of_a_dag_is_ranked`), the fixed computable schedule
-`finishSchedule mods` — ask every wrapper to stop, let every wait return and every inner function return
-nil, `|mods|` rounds — leaves every module Terminated or Failed: no reachable state is a deadlock among
-the wrapper services. Every state on the way is reachable, so the stop order is respected throughout. -/
-theorem system_can_always_finish (mods : List Mod) (sd td : Mod → List Mod) (hr : StopRanked mods td)
-    (evs : List REv) :
-    let s := (Sys.init mods sd td).run evs
-    (∀ m ∈ mods, ((s.run (finishSchedule mods)).st m).ph.terminal = true) ∧
-    ∀ k, let sk := s.run ((finishSchedule mods).take k)
-      ∀ m, (sk.st m).iStopReq = true → (sk.st m).wasRunning = true → ∀ x ∈ sk.stopDeps m, (sk.st x).ph.terminal = true := by
-  intro s
-  refine ⟨?_, ?_⟩
-  · apply finish_all mods s (sane_run _ evs (sane_init mods sd td))
-    rw [run_stopDeps]; exact hr
-  · intro k sk m h1 h2
-    have hi : RInv sk := rinv_run _ (rinv_run _ (rinv_init mods sd td) evs) _
-    rcases hi.req m h1 with h | h
-    · exact hi.stopped m h
-    · rw [h2] at h; cases h
-
-/-- the relation "x must have stopped before m stops" that `InitModuleServices` hands to the wrappers
-(x transitively depends on m) is ranked on every acyclic graph. -/
-theorem stop_relation_of_a_dag_is_ranked (g : Graph) (hg : Acyclic g) (mods : List Mod) (td : Mod → List Mod)
-    (h : ∀ m ∈ mods, ∀ x ∈ td m, x ∈ mods ∧ Reach g x m) : StopRanked mods td := by
+/-- `DependenciesForModule` / `inverseDependenciesForModule` are what their names say, on every acyclic graph. -/
+theorem dependency_queries_spec (g : Graph) (hg : Acyclic g) (m : Mod) :
+    (∃ l, dependenciesFor g (g.n + 1) m = some l ∧ ∀ x, x ∈ l ↔ Reach g m x) ∧
+    (∃ l, inverseDeps g (g.n + 1) m = some l ∧ ∀ x, x ∈ l ↔ x < g.n ∧ Reach g x m) := by
   obtain ⟨r, hr, hb⟩ := ranked_bounded g hg
-  refine ⟨fun y => g.n - r y, fun m hm x hx => ⟨(h m hm x hx).1, ?_⟩⟩
-  have := hr.reach (h m hm x hx).2
-  have := hb x
-  show g.n - r x < g.n - r m
-  omega
+  have hf : ∀ m, r m < g.n + 1 := fun m => by have := hb m; omega
+  obtain ⟨l, hl⟩ := dependenciesFor_some g r hr _ hf m
+  exact ⟨⟨l, hl, dependenciesFor_mem g _ m l hl⟩, inverseDeps_spec g r hr _ hf m⟩
 
-/-- non-vacuity: 1 depends on 0; a state in the middle of start-up (0 running, 1's inner service
-starting) is finished by the schedule, the dependant first. -/
-example :
-    let s := (Sys.init [0, 1] (fun m => if m = 1 then [0] else []) (fun m => if m = 0 then [1] else [])).run
-      [.wStart 0, .wStart 1, .depsDone 0, .iStartRet 0 true, .innerUp 0, .awaitOk 1 0, .depsDone 1]
-    let s' := s.run (finishSchedule [0, 1])
-    (s.st 0).ph = .run ∧ (s.st 1).ph = .innerStart ∧ (s'.st 0).ph = .term ∧ (s'.st 1).ph = .failed := by decide +kernel
+/-- **The wrappers wait for the graph's dependencies**: wrapper `m` awaits at start exactly the service
+modules `m` transitively depends on (also through modules without a service), and at stop exactly the
+service modules that transitively depend on `m` — in every reachable state. -/
+theorem wrapper_dependency_sets (g : Graph) (hg : Acyclic g) (svcs : List Mod) (evs : List REv) (m x : Mod) :
+    (x ∈ (wrun g svcs evs).startDeps m ↔ x ∈ svcs ∧ Reach g m x) ∧
+    (x ∈ (wrun g svcs evs).stopDeps m ↔ x ∈ svcs ∧ x < g.n ∧ Reach g x m) :=
+  wrun_deps g hg svcs evs m x
 
-/-- non-vacuity: module 1 depends on module 0; 0 starts and runs, then 1's service is started; and a
-run in which 0 fails to start, so that 1 (started) fails without its service ever being started. -/
+/-- A module's own service is started only after the wrapper of EVERY service module it transitively
+depends on has been Running ("has been", not "is still": the wrapper awaits its dependencies one after
+another, so an early one may already be stopping again — this is the reading of the code). -/
+theorem start_after_deps (g : Graph) (hg : Acyclic g) (svcs : List Mod) (evs : List REv) (m d : Mod)
+    (hd : d ∈ svcs) (hr : Reach g m d) (hi : ((wrun g svcs evs).st m).inner ≠ .new) :
+    ((wrun g svcs evs).st d).wasRunning = true :=
+  g_start_after_deps g hg svcs evs m d hd hr hi
+
+/-- A wrapper's `stop` asks the inner service to stop only when the wrapper of every service module that
+depends on it is Terminated or Failed (`stoppedByWrapper`); the only other stop request is the clean-up after
+a failed or cancelled start, which happens only while the wrapper has never been Running — and then no
+dependant's service has been started at all. -/
+theorem stop_after_dependants (g : Graph) (hg : Acyclic g) (svcs : List Mod) (evs : List REv) (m : Mod) :
+    (((wrun g svcs evs).st m).stoppedByWrapper = true →
+      ∀ x ∈ svcs, x < g.n → Reach g x m → ((wrun g svcs evs).st x).ph.terminal = true) ∧
+    (((wrun g svcs evs).st m).iStopReq = true → ((wrun g svcs evs).st m).stoppedByWrapper = false →
+      ((wrun g svcs evs).st m).wasRunning = false ∧
+      ∀ x ∈ svcs, Reach g x m → m ∈ svcs → ((wrun g svcs evs).st x).inner = .new) :=
+  g_stop_after_dependants g hg svcs evs m
+
+/-- If a dependency fails to start (its wrapper is Failed and was never Running) this is permanent, the
+service of every module depending on it is never started, and such a module, once started, can never be
+Running nor end Terminated: it can only end Failed. (That it does end: `dep_failure_propagates_progress`.) -/
+theorem dep_failure_propagates (g : Graph) (hg : Acyclic g) (svcs : List Mod) (evs more : List REv) (d : Mod)
+    (hd : d ∈ svcs) (hf : ((wrun g svcs evs).st d).ph = .failed) (hw : ((wrun g svcs evs).st d).wasRunning = false)
+    (m : Mod) (hr : Reach g m d) :
+    let s' := wrun g svcs (evs ++ more)
+    (s'.st d).ph = .failed ∧ (s'.st m).inner = .new ∧
+      ((s'.st m).started = true → (s'.st m).ph ≠ .term ∧ (s'.st m).ph ≠ .run) :=
+  g_dep_failure g hg svcs evs more d hd hf hw m hr
+
+/-- … and as long as such a started dependant has not terminated it is still waiting for its dependencies,
+the step in which it looks at the failed dependency is enabled, and that step makes it Failed.
+(`_partial`: that the goroutine gets to that step is fairness of the Go scheduler plus the other
+dependencies' latches closing — not modelled; `system_can_always_finish` gives one schedule that does.) -/
+theorem dep_failure_propagates_progress_partial (g : Graph) (hg : Acyclic g) (svcs : List Mod) (evs : List REv)
+    (d m : Mod) (hd : d ∈ svcs) (hr : Reach g m d)
+    (hf : ((wrun g svcs evs).st d).ph = .failed) (hw : ((wrun g svcs evs).st d).wasRunning = false)
+    (hs : ((wrun g svcs evs).st m).started = true) (hnt : ((wrun g svcs evs).st m).ph.terminal = false) :
+    (∃ ok, ((wrun g svcs evs).st m).ph = .waitDeps ok) ∧
+      (((wrun g svcs evs).step (.awaitFail m d)).st m).ph = .failed :=
+  fail_step_enabled _ (wrapperSys_rinv g _ svcs evs) m d ((wrun_deps g hg svcs evs m d).1.mpr ⟨hd, hr⟩) hf hw hs hnt
+
+/-- **The system of wrappers can always finish** (liveness without fairness), for every acyclic graph and
+every set of service modules: from every reachable state the fixed computable schedule
+`finishSchedule svcs` leaves every module Terminated or Failed — no reachable state is a deadlock among
+the wrapper services. Every state on the way is reachable, so `stop_after_dependants` holds throughout. -/
+theorem system_can_always_finish (g : Graph) (hg : Acyclic g) (svcs : List Mod) (evs : List REv) :
+    ∀ m ∈ svcs, (((wrun g svcs evs).run (finishSchedule svcs)).st m).ph.terminal = true :=
+  g_can_finish g hg svcs evs
+
+/-- the hypothesis `Acyclic` is necessary for finishing: two wrappers each listed as the other's dependant
+(impossible for a graph built with `AddDependency`) wait for each other forever under the schedule. -/
+theorem system_can_always_finish_needs_acyclic_witness :
+    let s : Sys := { mods := [0, 1], startDeps := fun _ => [], stopDeps := fun m => if m = 0 then [1] else [0],
+                     st := fun _ => { ph := .stopWait, inner := .running } }
+    ((s.run (finishSchedule [0, 1])).st 0).ph = .stopWait := by
+  decide +kernel
+
+/-- non-vacuity on a graph: 2 depends on 1 depends on 0, module 1 has no service. 2's wrapper waits for 0
+(through 1); 0 runs, then 2's service is started; stopping: 0's service is asked to stop only after 2 is done. -/
 example :
-    let s := (Sys.init [0, 1] (fun m => if m = 1 then [0] else []) (fun m => if m = 0 then [1] else [])).run
-      [.wStart 0, .wStart 1, .depsDone 0, .iStartRet 0 true, .innerUp 0, .awaitOk 1 0, .depsDone 1]
-    (s.st 1).inner = .starting ∧ (s.st 0).wasRunning = true := by decide
+    let g : Graph := { n := 3, deps := [[], [0], [1]] }
+    let s := wrun g [0, 2] [.wStart 0, .wStart 2, .depsDone 0, .iStartRet 0 true, .innerUp 0, .awaitOk 2 0, .depsDone 2]
+    let s' := s.run (finishSchedule [0, 2])
+    s.startDeps 2 = [0] ∧ s.stopDeps 0 = [2] ∧ (s.st 2).inner = .starting ∧ (s.st 0).wasRunning = true ∧
+    (s'.st 0).ph = .term ∧ (s'.st 2).ph = .failed ∧ (s'.st 0).stoppedByWrapper = true := by
+  decide +kernel
+
+/-- non-vacuity: 0 fails to start, so 2 (started) fails without its service ever being started. -/
 example :
-    let s := (Sys.init [0, 1] (fun m => if m = 1 then [0] else []) (fun m => if m = 0 then [1] else [])).run
-      [.wStart 0, .wStart 1, .depsDone 0, .iStartRet 0 false, .innerStartFailed 0, .cleanupDone 0, .awaitFail 1 0]
-    (s.st 0).ph = .failed ∧ (s.st 0).wasRunning = false ∧ (s.st 1).ph = .failed ∧ (s.st 1).inner = .new := by decide
+    let g : Graph := { n := 3, deps := [[], [0], [1]] }
+    let s := wrun g [0, 2] [.wStart 0, .wStart 2, .depsDone 0, .iStartRet 0 false, .innerStartFailed 0, .cleanupDone 0, .awaitFail 2 0]
+    (s.st 0).ph = .failed ∧ (s.st 0).wasRunning = false ∧ (s.st 2).ph = .failed ∧ (s.st 2).inner = .new := by
+  decide +kernel
 
 end PC18
